@@ -19,7 +19,7 @@ SPEC = {
         "4": "in-flow paragraphs out of document order or split",
         "8": "a collapsible space vanished inside a line (everything else in the paragraph matches)",
         "9": "a preserved line feed / <br> did not break the line (everything else matches)",
-        "7": "an unproved statement of Properties/C02.v (idempotence with pre-line, pre-line specification) fails on a generated text",
+        "7": "idempotence / the pre-line specification (theorems of Properties/C02.v) fail on a generated text",
         "5": "content units of a paginated flow not conserved",
         "6": "text boxes of a page and DrawText calls do not match one to one",
     },
